@@ -662,7 +662,7 @@ ROLE_TABLE: Dict[str, Tuple[Any, List[Any], List[str]]] = {
 
 # functions that become procedure calls: rule -> (procedure(s), operand pattern, parameter names incl. result)
 FUNC_ROLE_TABLE: Dict[str, Tuple[Any, List[Any], List[str]]] = {
-    "func_to_statements": ({"ecb_button", "ecb_int"}, [0], []),
+    "func_to_statements": ({"ecb_button", "ecb_int"}, [0], []),  # parameter order of both: L9 result-last
     "func_to_statements2": ("ecb_point", [0, 1], ["x", "y", "c0"]),
     "joystk_to_statement": ("ecb_joystk", [0], []),
     "instr_expr": ("ecb_instr", [0, 1, 2], ["index", "str0", "str1", "outindex"]),
